@@ -211,7 +211,7 @@ def decisionMargin (sc : SolveCase) : Float :=
   -- a threshold may be 0 (tolerance 0 in the malformed stream): then the decision is "is it exactly
   -- zero", which a last-ulp difference in a coordinate of magnitude `xinf` can flip
   let relAt (a t xinf : Float) : Float :=
-    if a.isNaN || t.isNaN then 1.0 else (a - t).abs / (max t.abs (1e-9 * max 1.0 xinf))
+    if a.isNaN || t.isNaN then 1.0 else (a - t).abs / (max t.abs (1e-6 * max 1.0 xinf))
   (List.range sc.calls.size).foldl (init := 1.0) fun m ci =>
     match sc.calls[ci]?, lvls[ci]? with
     | some call, some p =>
